@@ -104,6 +104,7 @@ def gen_source(rng):
         spec["dialect"] = {"lon360": rng.random() < 0.4, "extra": extra, "xyz_scale": rng.choice([1.0, 1.0, 2.0, 6371.0, 0.5, 1.000003, 0.999996]), "centre_shift": rng.choice([0.0, 0.0, 0.15])}
     elif r < 0.86:
         spec["prov"] = rng.choice(["vertices", "vertices_xyz", "vertices_xyz"])
+        spec["dialect"] = {"xyz_scale": rng.choice([1.0, 1.0, 0.5, 2.0, 1.000003])}
     else:
         spec["prov"] = rng.choice(["ugrid_mem", "ugrid_mem_chunked", "ugrid_file"])
         spec["dialect"] = {"lon360": rng.random() < 0.5, "start": rng.choice([0, 1]), "chunks": rng.random() < 0.5}
